@@ -253,9 +253,9 @@ fn faults_for(check: &str) -> (&'static [F], &'static [F]) {
         F::LNoSig, F::LForged, F::LCorrupt, F::LEdit, F::LEdit, F::LSigDup, F::CallerEmpty, F::CallerSuperset, F::CallerDisjoint, F::CallerAlias, F::CallerJsonAlias,
     ];
     const BYTES: &[F] = &[F::ByteFlip, F::ByteTrunc, F::ByteOverwrite, F::DupFile, F::SigDup, F::SigShuf];
-    const DELEG: &[F] = &[F::SubWrongSigner, F::SubExpired, F::SubInner, F::SubInner, F::WrongDir, F::ATamper];
+    const DELEG: &[F] = &[F::SubWrongSigner, F::SubExpired, F::SubInner, F::SubInner, F::WrongDir, F::ATamper, F::SharedSub];
     const DISSENT: &[F] = &[F::Dissent];
-    const C14F: &[F] = &[F::ByteFlip, F::ByteTrunc, F::ByteOverwrite, F::Garbage, F::IsDir, F::Dangling, F::DupFile, F::LEdit, F::LinkEdit];
+    const C14F: &[F] = &[F::ByteFlip, F::ByteTrunc, F::ByteOverwrite, F::Garbage, F::IsDir, F::Dangling, F::DupFile, F::OddFileName, F::LEdit, F::LinkEdit];
     match check {
         "C01" => (LAYOUT, BYTES),
         "C02" => (ALL_COUNT, BYTES),
